@@ -58,6 +58,12 @@ def transitionOk (b : SpecBulk.KMat) (op : BOp) (a : SpecBulk.KMat) : Bool :=
   | .delSigAttrs ns => SpecBulk.delSigAttrsOk b ns a
   | .delFrameAttrs ns => SpecBulk.delFrameAttrsOk b ns a
 
+/-- the property's domain: frame names unique in the matrix, signal names unique within a frame -/
+def inDomain (m : SpecBulk.KMat) : Bool :=
+  let fn := m.frames.map (·.name)
+  fn.eraseDups.length == fn.length &&
+  m.frames.all fun f => let sn := f.sigs.map (·.name); sn.eraseDups.length == sn.length
+
 def opName : BOp → String
   | .zero => "delete_zero_signals" | .obsolete => "delete_obsolete_defines" | .delSignal _ => "del_signal"
   | .renameSignal .. => "rename_signal" | .delFrame _ => "del_frame" | .renameFrame .. => "rename_frame"
@@ -74,7 +80,7 @@ def handle (op : String) (c i : Json) : Except String (Json × String) := do
     let istates ← (← J.arr (← J.key i "states")).mapM matOf
     let befores := m0 :: istates
     let bad := (List.zip ops (List.zip befores istates)).filterMap fun (o, b, a) =>
-      if transitionOk (toSpec b) o (toSpec a) then none else some s!"fail: {opName o} did not hit exactly its targets"
+      if !inDomain (toSpec b) || transitionOk (toSpec b) o (toSpec a) then none else some s!"fail: {opName o} did not hit exactly its targets"
     pure (mj, match bad with
       | [] => "ok"
       | b :: _ => b)
